@@ -102,7 +102,8 @@ Inductive base_event :=
 | BCallOwn (i : nat) (m a : N)     (* move the instance into a scope, call, leave the scope *)
 | BArm (n : N)                     (* the next real function (1) / default body (2) panics *)
 | BLive                            (* observe the numbers of live instrumented values *)
-| BCallD (i : nat) (m a : N).      (* call of a D-trait method through its receiver kind, with re-entrant user code *)
+| BCallD (i : nat) (m a : N)       (* call of a D-trait method through its receiver kind, with re-entrant user code *)
+| BCloneFrom (i j : nat).          (* instance i .clone_from(instance j) *)
 
 Record event := { ev_ctx : ctx; ev_base : base_event }.
 
@@ -401,6 +402,19 @@ Definition step (w : world) (e : event) : world * string :=
     | None => (w, "invalid")
     | Some it => (set_insts w (w_insts w ++ [clone_of it]), "ok")
     end
+  | BCloneFrom i j =>
+    (* Clone::clone_from, i.e. `*self = source.clone()`: the clone of j exists before the old value of i is dropped
+       (torn down like any dropped instance); the slot holds the clone afterwards, also when that drop panics *)
+    if Nat.eqb i j then (w, "invalid") else
+    match live_inst w i, live_inst w j with
+    | Some it, Some src =>
+      (* while the old value is torn down the new clone already holds a handle *)
+      let w1 := set_insts w (w_insts w ++ [clone_of src]) in
+      let r := drop_panic hinfo (w_bc w1) (w_cfg w1) (w_state w1) x it (count_after_release (w_insts w1) it) in
+      (* the clone then lives in slot i *)
+      (set_insts w (upd (w_insts w) i (clone_of src)), show_panic r)
+    | _, _ => (w, "invalid")
+    end
   | BDrop i =>
     match live_inst w i with
     | None => (w, "invalid")
@@ -511,6 +525,7 @@ Definition Ev (o u : bool) (b : base_event) : event :=
   {| ev_ctx := {| x_other_thread := o; x_unwinding := u |}; ev_base := b |}.
 Definition call_ (i m a : N) := BCall (N.to_nat i) m a.
 Definition clone_ (i : N) := BClone (N.to_nat i).
+Definition clonefrom_ (i j : N) := BCloneFrom (N.to_nat i) (N.to_nat j).
 Definition drop_ (i : N) := BDrop (N.to_nat i).
 Definition verify_ (i : N) := BVerify (N.to_nat i).
 Definition nvid_ (i : N) := BNvid (N.to_nat i).
